@@ -151,6 +151,22 @@ class LibMixin:
                 st.heap["#THREADS"] = z3.Concat(self.harr(st, "#THREADS"), z3.Unit(Ev.mkEv(z3.StringVal("thread.new"), Val.RefV(r),
                                                 box(self.heapify(st, tgt)), NoneV, NoneV, NoneV, NoneV, NoneV)))
             return [Res(st, SV("obj", r, h="Thread"))]
+        if name == "inspect.getcallargs":
+            self.assumptions.add("inspect.getcallargs(f, *a, **kw): Python's own binding of the call -- a fresh dict of parameter name -> bound value, "
+                                 "or TypeError exactly when the call f(*a, **kw) would fail to bind")
+            s_bad = st.copy()
+            bound_ok = self.fresh("binds", z3.BoolSort())
+            out = []
+            for s2, b in self.fork(st, bound_ok, "getcallargs"):
+                if b:
+                    from .models import PARAMS_OF
+                    d = self.new_dict(s2, PARAMS_OF(box(a[0])), self.fresh("camap", MapV))
+                    k = z3.Const("k!ca", Val)
+                    s2.assume(z3.ForAll([k], z3.Implies(z3.Select(self.dom_of(s2, d), k), Val.is_StrV(k)), patterns=[z3.Select(self.dom_of(s2, d), k)]))
+                    out.append(Res(s2, d))
+                else:
+                    out.append(self.raise_new(s2, "TypeError"))
+            return out
         # generic: opaque library function with a registered interface model
         key = "iface::ext.%s" % name
         if key in SP.CONTRACTS:
